@@ -553,6 +553,11 @@ func listNewOrder(c *core.Ctx) {
 	descList, descLen := "", ""
 	var accNow func(p *ir.Path) *ir.Term // the accumulated list as seen at the start of a path from h
 	nIter := 0
+	if l := countedLoop(an, h); l == nil || !l.Rotated() {
+		if q := earlyExit(an, h); q != nil {
+			ok, why = false, "the loop is left from inside its body: the remaining arguments never become cells"
+		}
+	}
 	for _, p := range an.Segs[h] {
 		if p.To != h {
 			continue
